@@ -5,18 +5,27 @@ import ParsecVerif.Model.Context
   1. The array of `parsec_compose`: 16 entries at construction, grown by 16 each time the count
      becomes a multiple of 16, always NULL-terminated (`Arr`, `compose`).
 
-  2. The compound taskpool as the code stands.  A compound has no termination detector when it is
-     added, so `parsec_context_add_taskpool` installs the local one and declares it ready while
-     `nb_pending_actions` is still 0: the detector fires inside add_taskpool — completion callback of
-     the COMPOUND, decrement of `active_taskpools` — before the increment and before the startup
-     hook.  In the context machine this is exactly a taskpool with `early = true`.  Then
-        startup hook       : nb_pending_actions := n ; add_taskpool(tp[0])             (`startup`)
-        callback of tp[i]  : idx = completed++ ; remaining = --nb_pending_actions ;
-                             if remaining > 0 then add_taskpool(tp[idx+1])              (`memberCb`)
+  2. The compound taskpool (repaired code: the constructor opens and monitors the local detector, the
+     startup hook declares it ready after setting the pending count).  In the context machine the
+     compound object is an ordinary taskpool without tasks whose detector is armed by its startup hook:
+        add_taskpool(compound) : addCall ; addInc (active += 1) ; startup hook ; addReturn
+        startup hook       : nb_pending_actions := n ; taskpool_ready ; add_taskpool(tp[0])   (`startup`)
+        callback of tp[i]  : idx = completed++ ; remaining = --nb_pending_actions — the release that
+                             reaches 0 detects the termination of the COMPOUND and runs its callback and
+                             its decrement nested in tp[i]'s callback — ;
+                             if remaining > 0 then add_taskpool(tp[idx+1])                    (`memberCb`)
      The callback uses `completed` as the index of the member that terminated (an assert in the
      code); the model does the same whatever member `m` actually terminated.
      Every other move is a move of the context machine (`ctx`), except that members are never added
-     or detected directly (they have no user callback: the compound owns `on_complete`).
+     or detected directly (they have no user callback: the compound owns `on_complete`) and that the
+     pending count of a compound is only touched by its startup hook and its members' callbacks.
+
+  3. `…Buggy`: the compound as the code stood before the repair.  It had no termination detector when it
+     was added, so `parsec_context_add_taskpool` installed the local one and declared it ready while
+     `nb_pending_actions` was still 0: the detector fired inside add_taskpool — completion callback of the
+     COMPOUND, decrement of `active_taskpools` — before the increment and before the startup hook (a
+     taskpool with `early = true` of the context machine); the members' callbacks then found the detector
+     terminated.  Kept with the witness theorems of Props/C15.lean.
 -/
 namespace ParsecVerif.Compound
 open ParsecVerif.Context
@@ -74,12 +83,16 @@ inductive CTr
 deriving Repr
 
 def allMembers (comps : List Comp) : List Nat := comps.flatMap (·.members)
+def allSelfs (comps : List Comp) : List Nat := comps.map (·.self)
 
-/-- context moves that are not available on members / inside a compound's startup -/
+/-- context moves that are not available on members / on compound objects / inside a compound's startup -/
 def ctxAllowed (cs : CSt) : Tr → Bool
   | .addCall _ q => !(allMembers cs.comps).contains q
   | .startupAdd _ _ => false
-  | .detect _ p => !(allMembers cs.comps).contains p
+  | .startupReady _ _ => false
+  | .actionDone _ _ => false
+  | .detect _ p => !(allMembers cs.comps).contains p && !(allSelfs cs.comps).contains p
+  | .insert _ p => !(allSelfs cs.comps).contains p
   | .addReturn t =>
     cs.comps.all fun c =>
       !(cs.base.subs[t]? == some (.startup c.self)) ||
@@ -91,6 +104,68 @@ def ctxAllowed (cs : CSt) : Tr → Bool
 def cstep? (cs : CSt) : CTr → Option CSt
   | .ctx tr =>
     if ctxAllowed cs tr then (step? cs.base tr).map (fun s' => { cs with base := s' }) else none
+  | .startup t c =>
+    match cs.comps[c]? with
+    | some comp =>
+      match comp.members.head? with
+      | some m0 =>
+        if cs.base.subs[t]? = some (.startup comp.self) then
+          match step? cs.base (.startupReady t comp.members.length) with
+          | some s1 =>
+            (step? s1 (.startupAdd t m0)).map fun s' =>
+              { base := s', comps := cs.comps.set c { comp with pending := comp.members.length } }
+          | none => none
+        else none
+      | none => none
+    | none => none
+  | .memberCb t c m =>
+    match cs.comps[c]? with
+    | some comp =>
+      if comp.members.contains m then
+        match step? cs.base (.detect t m) with
+        | some s1 =>
+          match step? s1 (.actionDone t comp.self) with
+          | some s2 =>
+            let comp' := { comp with completed := comp.completed + 1, pending := comp.pending - 1 }
+            if comp.pending - 1 > 0 then
+              match comp.members[comp.completed + 1]? with
+              | some nx => (step? s2 (.addCall t nx)).map fun s3 => { base := s3, comps := cs.comps.set c comp' }
+              | none => none      -- the C code would read past the members (cannot happen: see Props/C15)
+            else some { base := s2, comps := cs.comps.set c comp' }
+          | none => none
+        | none => none
+      else none
+    | none => none
+
+def cstep (cs : CSt) (tr : CTr) : CSt := (cstep? cs tr).getD cs
+
+def cinit (k : Nat) (tps : List Tp) (comps : List Comp) : CSt := { base := init k tps, comps := comps }
+
+def crun (k : Nat) (tps : List Tp) (comps : List Comp) (trs : List CTr) : CSt := trs.foldl cstep (cinit k tps comps)
+
+/-- static well-formedness of the composition: members of all compounds pairwise distinct, compound
+    objects pairwise distinct and not members (no nesting), members are ordinary PTG taskpools, the
+    compound object has no task and a detector that is armed later than add_taskpool, nothing has run yet -/
+def WF (tps : List Tp) (comps : List Comp) : Prop :=
+  (allMembers comps).Nodup ∧ (allSelfs comps).Nodup ∧
+  (∀ c ∈ comps, c.completed = 0 ∧ c.pending = 0 ∧ 1 ≤ c.members.length ∧ c.self ∉ allMembers comps ∧
+     (∃ tp : Tp, tps[c.self]? = some tp ∧ tp.early = false ∧ tp.total = 0) ∧
+     ∀ m ∈ c.members, ∃ tp : Tp, tps[m]? = some tp ∧ tp.early = false ∧ tp.dtd = false) ∧
+  (∀ tp ∈ tps, tp.fresh)
+
+/-! ## the compound before the repair -/
+
+def ctxAllowedBuggy (cs : CSt) : Tr → Bool
+  | .addCall _ q => !(allMembers cs.comps).contains q
+  | .startupAdd _ _ => false
+  | .startupReady _ _ => false
+  | .actionDone _ _ => false
+  | .detect _ p => !(allMembers cs.comps).contains p
+  | _ => true
+
+def cstepBuggy? (cs : CSt) : CTr → Option CSt
+  | .ctx tr =>
+    if ctxAllowedBuggy cs tr then (step? cs.base tr).map (fun s' => { cs with base := s' }) else none
   | .startup t c =>
     match cs.comps[c]? with
     | some comp =>
@@ -112,22 +187,19 @@ def cstep? (cs : CSt) : CTr → Option CSt
           if comp.pending - 1 > 0 then
             match comp.members[comp.completed + 1]? with
             | some nx => (step? s1 (.addCall t nx)).map fun s2 => { base := s2, comps := cs.comps.set c comp' }
-            | none => none      -- the C code would read past the members (cannot happen: see Props/C15)
+            | none => none
           else some { base := s1, comps := cs.comps.set c comp' }
         | none => none
       else none
     | none => none
 
-def cstep (cs : CSt) (tr : CTr) : CSt := (cstep? cs tr).getD cs
+def cstepBuggy (cs : CSt) (tr : CTr) : CSt := (cstepBuggy? cs tr).getD cs
 
-def cinit (k : Nat) (tps : List Tp) (comps : List Comp) : CSt := { base := init k tps, comps := comps }
+def crunBuggy (k : Nat) (tps : List Tp) (comps : List Comp) (trs : List CTr) : CSt :=
+  trs.foldl cstepBuggy (cinit k tps comps)
 
-def crun (k : Nat) (tps : List Tp) (comps : List Comp) (trs : List CTr) : CSt := trs.foldl cstep (cinit k tps comps)
-
-/-- static well-formedness of the composition: members of all compounds pairwise distinct, no compound
-    object is a member (no nesting), members are ordinary PTG taskpools, the compound object is a
-    taskpool without detector, nothing has run yet -/
-def WF (tps : List Tp) (comps : List Comp) : Prop :=
+/-- as `WF`, but the compound object is a taskpool without termination detector (`early`) -/
+def WFBuggy (tps : List Tp) (comps : List Comp) : Prop :=
   (allMembers comps).Nodup ∧
   (∀ c ∈ comps, c.completed = 0 ∧ c.pending = 0 ∧ 1 ≤ c.members.length ∧ c.self ∉ allMembers comps ∧
      (∃ tp : Tp, tps[c.self]? = some tp ∧ tp.early = true) ∧
